@@ -175,6 +175,20 @@ Section C07.
       (e_kind e0 <> EShared -> forall e, In e rest -> e_kind e <> EShared -> e_to e = e_to e0).
   Proof. exact (thm_first_decides c_version c_versions c_requirements is_simple cmatch vless). Qed.
 
+  (* ---- which version is selected, for EVERY number of passes: the last edge of an artifact key points to what
+     findMatch answers on the FINAL requirement list of the key (soft versions in the order met, else the first
+     listed version inside all ranges), and every other edge of the key that is not a shared-node edge points to
+     the same version.  This is the rule the direct oracle evaluates with its own findMatch on the Go graphs
+     (harness/props/C07.py, selection_hits); it explains F-C07-2: after a retry the final list still starts with
+     the requirements of the abandoned passes. *)
+  Theorem C07_final_list_decides : forall fuel root R g,
+    resolve_full fuel root = (R, Ok g) ->
+    forall k, (forall ne, In ne (g_errs g) -> ne_mk ne <> k) ->
+    forall es el, filter (on_k k) (g_edges g) = es ++ [el] ->
+      exists m, find_match (reqs_of R k) = Ok m /\ e_to el = v_vk m /\
+                (e_kind el <> EShared -> forall e, In e es -> e_kind e <> EShared -> e_to e = v_vk m).
+  Proof. exact (thm_final_list_decides c_version c_versions c_requirements is_simple cmatch vless). Qed.
+
   (* ---- when no version satisfies the requirements a node error is reported instead (the other
      outcome, the incompatible-requirements error, is a resolution that returns no graph).
      (a) one declaration: if findMatch answers errNoMatch the step records the node error and goes
@@ -244,6 +258,7 @@ Print Assumptions C07_management.
 Print Assumptions C07_nearest_requirements.
 Print Assumptions C07_nearest_partial.
 Print Assumptions C07_first_declaration_decides.
+Print Assumptions C07_final_list_decides.
 Print Assumptions C07_no_match_reported.
 Print Assumptions C07_ghost_consistent.
 Print Assumptions C07_shared_edges.
@@ -306,6 +321,13 @@ Example C07_example_first_declaration_range :
   end = true
   /\ forallb (fun ne => if mkey_dec (ne_mk ne) ex_b then false else true) (g_errs ex_graph) = true.
 Proof. exact ex_first_is_range. Qed.
+Example C07_example_final_list :
+  resolve_full (tc_version w2_tables) (tc_versions w2_tables) (tc_requirements w2_tables) (tc_simple w2_tables)
+               (tc_match w2_tables) (tc_less w2_tables) 50 w2_root = (w2_reqs, Ok w2_graph)
+  /\ map vk_ver (reqs_of w2_reqs w2_k) = [[49]; [50]]
+  /\ length (filter (on_k w2_k) (g_edges w2_graph)) = 1%nat
+  /\ forallb (fun ne => if mkey_dec (ne_mk ne) w2_k then false else true) (g_errs w2_graph) = true.
+Proof. exact w2_full. Qed.
 Example C07_example_shared_edge :
   existsb (fun e => match e_kind e with EShared => true | _ => false end) (g_edges w1_graph) = true
   /\ single_variantb w1_root w1_graph = false.
